@@ -16,9 +16,14 @@ _Bool f__ZNK14vp_trompeloeil6vp_absILi1EE7matchesERKi(struct S_vp_abs_1 *self, i
 _Bool f__ZNK14vp_trompeloeil6vp_absILi2EE7matchesERKi(struct S_vp_abs_2 *self, int *v) { return abs_eval(2, v); }
 _Bool f__ZNK14vp_trompeloeil6vp_absILi3EE7matchesERKi(struct S_vp_abs_3 *self, int *v) { return abs_eval(3, v); }
 /* std::regex_search: uninterpreted; must never be reached with a null range */
-_Bool re_result; int re_calls; extern char *re_b, *re_e;
+_Bool re_result; int re_calls; extern char *re_b, *re_e; extern int rs_flags; extern struct vp_regex *rs_re;
 _Bool vpx_regex_search__char_p_char_p_vp_regex_p_int(char *b, char *e, struct vp_regex *re, int flags)
-{ __CPROVER_assert(b != 0 && e != 0, "[C10] SAFETY regex_search_never_called_on_a_null_string"); re_calls++; re_b = b; re_e = e; return re_result; }
+{ __CPROVER_assert(b != 0 && e != 0, "[C10] SAFETY regex_search_never_called_on_a_null_string"); re_calls++; re_b = b; re_e = e; rs_flags = flags; rs_re = re; return re_result; }
+/* std::regex: an opaque object that remembers the syntax options it was built with; copies / moves keep them */
+extern int rx_opt, rx_ctor_calls;
+void vpx_vp_regex_ctor__vp_string_p_int(struct vp_regex *self, struct vp_string *s, int opt) { rx_ctor_calls++; rx_opt = opt; self->id = opt; }
+void vpx_vp_regex_ctor__vp_string_p(struct vp_regex *self, struct vp_string *s) { rx_ctor_calls++; rx_opt = -1; self->id = -1; }
+void vpx_vp_regex_ctor__vp_regex_p(struct vp_regex *self, struct vp_regex *o) { self->id = o->id; }
 unsigned long strlen_result;
 unsigned long vpx_strlen__char_p(char *s) { __CPROVER_assert(s != 0, "[C10] SAFETY strlen_never_called_on_null"); return strlen_result; }
 int *vpx_op_call__vp_memfn_p_S_vp_S_p(struct vp_memfn *f, struct S_vp_S *v) { return &v->m; }
@@ -108,4 +113,17 @@ void m_double(void) { double x = nondet_double(), v = nondet_double(); in_dx = x
   DCMP(PM_EQ_D, ==, "double_eq_accepts_exactly_x_eq_v") DCMP(PM_NE_D, !=, "double_ne_accepts_exactly_x_ne_v") DCMP(PM_LT_D, <, "double_lt_accepts_exactly_x_lt_v")
   DCMP(PM_LE_D, <=, "double_le_accepts_exactly_x_le_v") DCMP(PM_GT_D, >, "double_gt_accepts_exactly_x_gt_v") DCMP(PM_GE_D, >=, "double_ge_accepts_exactly_x_ge_v")
   __CPROVER_assert(x == x && v == v, "REACH double.unordered"); __CPROVER_assert(0, "REACH! double"); }
+/* re(s, syntax options, match flags) and re(s, match flags): the options reach the regular expression, the flags reach every search */
+int rx_opt, rx_ctor_calls; int rs_flags; struct vp_regex *rs_re;
+void m_re_flags(void) { char *s = &str_buf[0]; PM_RE_T1 u; u.p = &s; int opt = nondet_int(), mt = nondet_int(); re_result = nondet_bool(); re_calls = 0; strlen_result = 2;
+  struct vp_string pat; vpx_vp_string_ctor(&pat);
+  PM_RE_T0 m3 = RE3(pat, opt, mt);
+  __CPROVER_assert(rx_ctor_calls == 1 && rx_opt == opt, "[C10] POST re.the_syntax_options_reach_the_regular_expression");
+  _Bool r = PM_RE(&m3, &u);
+  __CPROVER_assert(r == re_result && re_calls == 1 && rs_flags == mt && rs_re != 0 && rs_re->id == opt, "[C10] POST re.the_match_flags_and_that_regular_expression_reach_the_search");
+  rx_ctor_calls = 0; re_calls = 0; struct vp_string pat2; vpx_vp_string_ctor(&pat2);
+  PM_RE_T0 m2 = RE2(pat2, mt);
+  r = PM_RE(&m2, &u);
+  __CPROVER_assert(rx_ctor_calls == 1 && r == re_result && re_calls == 1 && rs_flags == mt, "[C10] POST re.the_two_argument_form_passes_the_match_flags");
+  __CPROVER_assert(0, "REACH! re_flags"); }
 int main(void) { VP_ENTRY(); return 0; }
